@@ -1,4 +1,4 @@
-package c05
+package c06
 
 // Typed interrupt/resume workload, written directly against eino's public API.
 //
@@ -1945,4 +1945,284 @@ func genTyped(r *mon.Rand, focus string, thorough bool) *tGraph {
 	}
 	in.Multi = in.K == kStr || in.K == kMap // Collect / Transform hand the input over in chunks
 	return genGraph(r, &p, "", "", in, 0)
+}
+
+// ================================================================ C06: the judge of the typed sub-workload
+//
+// Everything above this line is the typed interrupt/resume engine of check C05 (checks/c05/typed_engine_test.go,
+// copied verbatim: test packages cannot import each other). gspec's node values are all map[string]any, so
+// whether an interrupt is *returned as an interrupt* when the pending values are structs behind field mappings,
+// values behind run-time checked edges, nil interfaces or eino's own schema.Message values was never observed.
+// Judged per call of every history (the uninterrupted run of the same spec succeeds in both forms):
+//   (1) a call either finishes the run or returns an error from which ExtractInterruptInfo yields the info
+//       (a resume that fails before any node ran is a restore failure: C05's business, only counted here;
+//       every history stays in one form, value or stream);
+//   (2) with a checkpoint id: exactly one Set iff the call returned an interrupt; without: no store access;
+//   (3) the info is consistent with the configuration and the log: before/after lists name configured points of
+//       that nesting level, the rerun list is the set of nodes that asked for it in this call, sub-graph entries
+//       are graph nodes, a state is carried iff the graph declares one and it is that graph's state;
+//   (4) a node configured interrupt-before runs only in a call that follows an interrupt reporting it.
+
+const typedPrefix = ID + "/typed/"
+
+func typedCasesPerShard(cfg mon.Config) int64 { return int64(cfg.Pick(14, 28)) }
+
+func typedUninterrupted(ctx context.Context, g *tGraph, para, seed string, chunks int) (string, bool) {
+	h := runTyped(ctx, g, nil, histOpts{Paras: []string{para}, MaxCalls: 1, InputSeed: seed, InChunks: chunks})
+	if h.BuildErr != nil || !h.Completed {
+		return "", false
+	}
+	return render(h.final().Out), true
+}
+
+func typedCase(ctx context.Context, rep *mon.Reporter, rng *mon.Rand, cfg mon.Config, j int64) {
+	focus := focuses[int(j)%len(focuses)]
+	g := genTyped(rng, focus, cfg.Thorough())
+	seed := rng.Str(2, 6)
+	chunks := rng.Range(1, 3)
+	rep.Count("typed_specs", 1)
+	bases := map[string]string{}
+	base := func(para string) (string, bool) {
+		if b, ok := bases[para]; ok {
+			return b, b != "\x00"
+		}
+		b, ok := typedUninterrupted(ctx, g, para, seed, chunks)
+		rep.AddEvaluations(1)
+		if !ok {
+			b = "\x00"
+			rep.Count("typed_skipped_uninterrupted_run_fails_"+para, 1)
+		}
+		bases[para] = b
+		return b, ok
+	}
+	bi, ok1 := base("I")
+	bs, ok2 := base("S")
+	if !ok1 || !ok2 || bi != bs {
+		return // the uninterrupted run itself fails or depends on the form: not judged here
+	}
+	rep.Count("typed_specs_judged", 1)
+	pts := allTypedPoints(g)
+	var plans []tPlan
+	hasRerun := false
+	g.walk(func(x *tGraph) {
+		for i := range x.Nodes {
+			if x.Nodes[i].Rerun != "" {
+				hasRerun = true
+			}
+		}
+	})
+	if hasRerun {
+		plans = append(plans, tPlan{})
+	}
+	for _, p := range pts {
+		plans = append(plans, tPlan{p})
+	}
+	for n := 0; n < cfg.Pick(12, 40) && len(pts) >= 2; n++ {
+		a := rng.Intn(len(pts))
+		b := rng.Intn(len(pts) - 1)
+		if b >= a {
+			b++
+		}
+		plans = append(plans, tPlan{pts[a], pts[b]})
+	}
+	is := []string{"I", "S"}
+	for pi, plan := range plans {
+		// every history stays in one form (value: Invoke; stream: Stream, entered through Collect / Transform
+		// now and then): what a checkpoint written in one form is worth in the other is C05's subject
+		seqs := [][]string{{"I", "I"}, {"S", "S"}}
+		if pi%3 == 0 {
+			seqs = append(seqs, []string{mon.PickOne(rng, []string{"C", "T"}), "S"})
+		}
+		for _, paras := range seqs {
+			if b, ok := base(paras[0]); !ok || b != bi {
+				continue
+			}
+			typedHistory(ctx, rep, g, focus, seed, chunks, plan, paras, true)
+		}
+		if pi%4 == 0 {
+			typedHistory(ctx, rep, g, focus, seed, chunks, plan, []string{is[pi/4%2]}, false)
+		}
+	}
+}
+
+func typedContains(xs []string, x string) bool {
+	for _, y := range xs {
+		if y == x {
+			return true
+		}
+	}
+	return false
+}
+
+func typedHistory(ctx context.Context, rep *mon.Reporter, g *tGraph, focus, seed string, chunks int, plan tPlan, paras []string, withID bool) {
+	maxCalls := 2*g.bodies() + 2*len(plan) + 6
+	h := runTyped(ctx, g, plan, histOpts{Paras: paras, WithID: withID, Reruns: true, MaxCalls: maxCalls, InputSeed: seed, InChunks: chunks, IgnoredIn: true})
+	rep.AddEvaluations(int64(len(h.Calls)))
+	rep.Count("typed_histories", 1)
+	sig := typedPrefix + focus + "/"
+	wit := map[string]any{"spec": g, "input_seed": seed, "plan": plan.String(), "paradigms": paras, "with_checkpoint_id": withID}
+	extra := func() string {
+		return fmt.Sprintf("input=%s checkpoint-id=%v (the uninterrupted run of the same graph succeeds)\n%s", render(mk(g.In, seed)), withID, h.render())
+	}
+	if h.BuildErr != nil {
+		rep.Violation(sig+"build-error/with-interrupts", h.BuildErr.Error(), wit)
+		return
+	}
+	if h.Stuck != "" {
+		rep.Violation(sig+"hang/"+h.Stuck, "a call of the history can never finish\n"+h.StuckDetail+"\n"+extra(), wit)
+		return
+	}
+	if h.Inconclusive {
+		rep.Inconclusive("watchdog fired while goroutines were active")
+		return
+	}
+	// where every node lives, and the chain of graph-node keys that leads to every graph
+	owner := map[string]*tGraph{}
+	chain := map[string][]string{}
+	var walk func(x *tGraph, prefix []string)
+	walk = func(x *tGraph, prefix []string) {
+		chain[x.Name] = prefix
+		for i := range x.Nodes {
+			owner[x.Nodes[i].Key] = x
+			if s := x.Nodes[i].Sub; s != nil {
+				walk(s, append(append([]string(nil), prefix...), x.Nodes[i].Key))
+			}
+		}
+	}
+	walk(g, nil)
+	before := map[string]bool{} // graph name + "/" + node
+	after := map[string]bool{}
+	for _, p := range plan {
+		if p.After {
+			after[p.Graph+"/"+p.Node] = true
+		} else {
+			before[p.Graph+"/"+p.Node] = true
+		}
+	}
+	infoAt := func(info *compose.InterruptInfo, path []string) *compose.InterruptInfo {
+		for _, k := range path {
+			if info == nil {
+				return nil
+			}
+			info = info.SubGraphs[k]
+		}
+		return info
+	}
+	for i := range h.Calls {
+		c := &h.Calls[i]
+		rep.Count("typed_calls_checked", 1)
+		// ---- (1)
+		if c.failed() {
+			if i > 0 && len(c.Execs) == 0 {
+				rep.Count("typed_resume_failed_before_any_node_ran", 1) // restore failure: C05
+				return
+			}
+			where := "first-call/" + formOf(c.Para)
+			if i > 0 {
+				where = "after-resume/" + formOf(c.Para)
+			}
+			rep.Violation(sig+"call-failed-instead-of-returning-an-interrupt/"+where,
+				fmt.Sprintf("call %d (%s) neither finished the run nor returned an error from which the interrupt information can be extracted (store sets=%d): %s\n%s", i, c.Para, c.Sets, c.String(), extra()), wit)
+			return
+		}
+		// ---- (2)
+		switch {
+		case withID && c.Interrupted && c.Sets != 1:
+			rep.Violation(sig+"store/sets-on-interrupt", fmt.Sprintf("call %d returned an interrupt but wrote the checkpoint %d times\n%s", i, c.Sets, extra()), wit)
+			return
+		case withID && !c.Interrupted && c.Sets != 0:
+			rep.Violation(sig+"store/set-without-interrupt", fmt.Sprintf("call %d did not return an interrupt but wrote a checkpoint\n%s", i, extra()), wit)
+			return
+		case !withID && (c.Sets != 0 || c.Gets != 0):
+			rep.Violation(sig+"store/access-without-id", fmt.Sprintf("no checkpoint id, but the store was accessed (sets=%d gets=%d)\n%s", c.Sets, c.Gets, extra()), wit)
+			return
+		}
+		rep.Count("typed_store_access_checks", 1)
+		// ---- (4)
+		for _, e := range c.Execs {
+			og := owner[e.Key]
+			if og == nil || !before[og.Name+"/"+e.Key] {
+				continue
+			}
+			ok := false
+			if i > 0 && h.Calls[i-1].Interrupted {
+				if inf := infoAt(h.Calls[i-1].Info, chain[og.Name]); inf != nil && (typedContains(inf.BeforeNodes, e.Key) || typedContains(inf.RerunNodes, e.Key)) {
+					ok = true
+				}
+			}
+			if !ok {
+				rep.Violation(sig+"before-node-ran-without-interrupt", fmt.Sprintf("node %s is configured interrupt-before but ran in call %d without a preceding interrupt that reported it\n%s", e.Key, i, extra()), wit)
+				return
+			}
+			rep.Count("typed_before_points_honoured", 1)
+		}
+		// ---- (3)
+		if !c.Interrupted {
+			continue
+		}
+		var check func(x *tGraph, info *compose.InterruptInfo) string
+		check = func(x *tGraph, info *compose.InterruptInfo) string {
+			if info == nil {
+				return "nil-info: no interrupt info for graph " + strconv.Quote(x.Name)
+			}
+			for _, n := range info.BeforeNodes {
+				if !before[x.Name+"/"+n] {
+					return fmt.Sprintf("before-list: graph %q reports %s which is not configured interrupt-before", x.Name, n)
+				}
+			}
+			for _, n := range info.AfterNodes {
+				if !after[x.Name+"/"+n] {
+					return fmt.Sprintf("after-list: graph %q reports %s which is not configured interrupt-after", x.Name, n)
+				}
+			}
+			var asked []string
+			for _, e := range c.Execs {
+				if e.Aborted && owner[e.Key] == x {
+					asked = append(asked, e.Key)
+				}
+			}
+			sort.Strings(asked)
+			rr := append([]string(nil), info.RerunNodes...)
+			sort.Strings(rr)
+			if strings.Join(asked, ",") != strings.Join(rr, ",") {
+				return fmt.Sprintf("rerun-list: graph %q reports %v, the nodes that asked to be interrupted in this call are %v", x.Name, rr, asked)
+			}
+			for _, k := range mon.SortedKeys(info.SubGraphs) {
+				var sub *tGraph
+				for ni := range x.Nodes {
+					if x.Nodes[ni].Key == k {
+						sub = x.Nodes[ni].Sub
+					}
+				}
+				if sub == nil {
+					return fmt.Sprintf("subgraph-list: graph %q reports sub-graph %s which is not a graph node", x.Name, k)
+				}
+				if m := check(sub, info.SubGraphs[k]); m != "" {
+					return m
+				}
+			}
+			if len(info.BeforeNodes)+len(info.AfterNodes)+len(info.RerunNodes)+len(info.SubGraphs) == 0 {
+				return fmt.Sprintf("empty: graph %q returned an interrupt that names no node", x.Name)
+			}
+			st, isSt := info.State.(*tState)
+			switch {
+			case x.State && (!isSt || st == nil):
+				return fmt.Sprintf("state: graph %q declares state but the info carries %T", x.Name, info.State)
+			case x.State && st.Owner != x.Path:
+				return fmt.Sprintf("state: graph %q (path %q) reports the state of the graph at %q", x.Name, x.Path, st.Owner)
+			case !x.State && info.State != nil:
+				return fmt.Sprintf("state: graph %q declares no state but the info carries %T", x.Name, info.State)
+			}
+			return ""
+		}
+		if m := check(g, c.Info); m != "" {
+			rep.Violation(sig+"info/"+m[:strings.IndexByte(m, ':')], m+"\n"+extra(), wit)
+			return
+		}
+		rep.Count("typed_interrupt_infos_checked", 1)
+	}
+	if len(h.Calls) > 1 || (!withID && len(h.Calls) == 1 && h.Calls[0].Interrupted) {
+		rep.NonTrivial("typed|" + g.digest() + "|" + seed + "|" + plan.String() + fmt.Sprint(paras, withID))
+		rep.Count("typed_histories_with_interrupts", 1)
+	}
 }
